@@ -2120,8 +2120,9 @@ func (p *Parser) parseFields() (Fields, error) {
 		// Add new field.
 		fields = append(fields, f)
 
-		// If there's not a comma next then stop parsing fields.
-		if tok, _, _ := p.Scan(); tok != COMMA {
+		// If there's not a comma next then stop parsing fields. Whitespace
+		// and comments may stand in front of the comma.
+		if tok, _, _ := p.ScanIgnoreWhitespace(); tok != COMMA {
 			p.Unscan()
 			break
 		}
@@ -2353,8 +2354,9 @@ func (p *Parser) parseDimensions() (Dimensions, error) {
 		// Add new dimension.
 		dimensions = append(dimensions, d)
 
-		// If there's not a comma next then stop parsing dimensions.
-		if tok, _, _ := p.Scan(); tok != COMMA {
+		// If there's not a comma next then stop parsing dimensions. Whitespace
+		// and comments may stand in front of the comma.
+		if tok, _, _ := p.ScanIgnoreWhitespace(); tok != COMMA {
 			p.Unscan()
 			break
 		}
